@@ -45,7 +45,7 @@ SHORT = [["E", "X"], [("C", "ok")], [("C", "raise")], ["E", "E", "X", "X"]]
 
 def floors(tier):
     q = tier == "quick"
-    return {"schedules": 15000 if q else 400000, "states": 10000 if q else 250000, "explorations_complete": 60 if q else 300, "line_events": 10**6, "real_guard_exits": 2000 if q else 20000, "real_overlap_observed": 1, "calls_left:callback-changes-sigint-handler": 20, "calls_left:callback-raises": 20}
+    return {"schedules": 15000 if q else 400000, "states": 10000 if q else 250000, "explorations_complete": 60 if q else 200, "line_events": 10**6, "real_guard_exits": 2000 if q else 20000, "real_overlap_observed": 1, "calls_left:callback-changes-sigint-handler": 20, "calls_left:callback-raises": 20}
 
 
 def plan(tier, seed):
